@@ -153,7 +153,15 @@ fn one_case(rep: &Report, case: &Case, rng: &mut Rng, n_variants: u64, pairs: &s
                 } else {
                     // the baseline configuration succeeded: failing under a neutral option is a dependence on it
                     let msg = e.to_string();
-                    let kind = if msg.contains("Physical input schema should be the same") { "internal-error:physical-logical-schema".to_string() } else { format!("{cls:?}") };
+                    let kind = if msg.contains("Physical input schema should be the same") {
+                        "internal-error:physical-logical-schema".to_string()
+                    } else if let Some(i) = msg.find("panicked with message") {
+                        // a spawned task panicked: key by the message with numbers normalised
+                        let m: String = msg[i + 21..].chars().take(80).map(|c| if c.is_ascii_digit() { 'N' } else { c }).collect();
+                        format!("task-panic:{}", m.trim().trim_matches('"').replace("NN", "N").replace("NN", "N"))
+                    } else {
+                        format!("{cls:?}")
+                    };
                     rep.violation(&format!("variant-fails/{kind}"), json!({"case": case.witness(None, Some(&base.rows), &format!("error under variant config: {}", msg.chars().take(300).collect::<String>())), "setting": setting_json(&setting)}));
                 }
             }
